@@ -46,6 +46,7 @@ static void A_STORE_idx(size_t* x, size_t v, int mo) { VERIF_INTERFERE(); A_NOTE
 #define LOAD_HEAD(mo) A_LOAD_idx(&self->head_, mo, g_role == 2 || g_role == 0)
 #define LOAD_TAIL(mo) A_LOAD_idx(&self->tail_, mo, g_role == 1 || g_role == 0)
 
+static size_t MIN_auto(size_t a, size_t b) { return b < a ? b : a; }
 size_t increment(size_t index)
 __CPROVER_requires(index < kBufferSize)
 __CPROVER_ensures(RV == (index + 1) % kBufferSize)
@@ -58,7 +59,7 @@ static T_cell* elementAt(Ring* self, size_t index) {
 }
 
 /* ------------- producer operations ------------- */
-#define PRODUCER_PRE (self == g_ring && g_role == 1 && WF(self) && !g_bad_order && INV_K(self, g_k) && g_k < kBufferSize)
+#define PRODUCER_PRE (self == g_ring && g_role == 1 && WF(self) && !g_bad_order && INV_K(self, g_k) && g_k < kBufferSize && g_occupancy0 == CYC(self->head_, self->tail_))
 size_t g_k; size_t g_occupancy0;   /* ghost: number of elements in the ring at entry */
 /* after the call: I still holds for the ghost slot; the ring never holds more than capacity(); index publication is release */
 #define COMMON_POST (WF(self) && INV_K(self, g_k) && !g_bad_order && CYC(self->head_, self->tail_) <= kBufferSize - 1)
@@ -110,6 +111,29 @@ __CPROVER_ensures(!RV ==> (self->head_ == __CPROVER_old(self->head_) && g_T_dest
 __CPROVER_assigns(*self, *storage, g_last_mo, g_bad_order, g_T_destroyed, g_T_constructed)
 #include "Ring_try_pop_into.body.inc"
 
+/* ------------- batch operations (iterators rendered as indices into arrays) ------------- */
+#define NSRC (KBUF + 2)
+size_t Ring_try_push_batch(Ring* self, T_cell src[NSRC], size_t first, size_t last)
+__CPROVER_requires(PRODUCER_PRE && first <= last && last <= NSRC && g_T_constructed == 0)
+__CPROVER_ensures(COMMON_POST)
+/* as many as fit into the free space observed (at least the free space at entry), never more than offered; that many objects constructed, tail advanced by as many */
+__CPROVER_ensures(RV <= last - first && RV <= kBufferSize - 1 && g_T_constructed == RV && self->tail_ == (__CPROVER_old(self->tail_) + RV) % kBufferSize)
+__CPROVER_ensures(RV >= (last - first < kBufferSize - 1 - g_occupancy0 ? last - first : kBufferSize - 1 - g_occupancy0))
+/* FIFO: the first pushed element sits at the old tail with the first source value */
+__CPROVER_ensures(RV >= 1 ==> self->slots[__CPROVER_old(self->tail_)].value == src[first].value)
+__CPROVER_assigns(*self, __CPROVER_object_whole(src), g_last_mo, g_bad_order, g_T_constructed)
+#include "Ring_try_push_batch.body.inc"
+
+size_t Ring_try_pop_batch(Ring* self, T_cell dst[NSRC], size_t dest, size_t maxCount)
+__CPROVER_requires(CONSUMER_PRE && dest == 0 && g_T_destroyed == 0 && (self->head_ != self->tail_ ==> self->slots[self->head_].value == g_head_value))
+__CPROVER_ensures(COMMON_POST)
+/* pops min(available as observed, maxCount): at least what was there at entry; each popped element destroyed exactly once; head advanced by as many */
+__CPROVER_ensures(RV <= maxCount && RV <= kBufferSize - 1 && g_T_destroyed == RV && self->head_ == (__CPROVER_old(self->head_) + RV) % kBufferSize)
+__CPROVER_ensures(RV >= (maxCount < g_occupancy0 ? maxCount : g_occupancy0))
+__CPROVER_ensures((RV >= 1 && g_occupancy0 > 0) ==> dst[0].value == g_head_value)
+__CPROVER_assigns(*self, __CPROVER_object_whole(dst), g_last_mo, g_bad_order, g_T_destroyed)
+#include "Ring_try_pop_batch.body.inc"
+
 /* ------------- quiescent observers and destructor ------------- */
 bool Ring_empty(const Ring* self)
 __CPROVER_requires(self == g_ring && g_role == 0 && WF(self))
@@ -148,6 +172,8 @@ void h_Ring_try_push_copy(void) { Ring r; mk(&r, 1); T_cell it; it.live = 1; it.
 void h_Ring_try_emplace(void) { Ring r; mk(&r, 1); T_tag a; Ring_try_emplace(&r, a); }
 void h_Ring_try_pop_ref(void) { Ring r; mk(&r, 2); T_cell it; it.live = 1; it.moved_from = 0; Ring_try_pop_ref(&r, &it); }
 void h_Ring_try_pop_into(void) { Ring r; mk(&r, 2); T_cell st; st.live = 0; Ring_try_pop_into(&r, &st); }
+void h_Ring_try_push_batch(void) { Ring r; mk(&r, 1); T_cell src[NSRC]; for (size_t j = 0; j < NSRC; ++j) { src[j].live = 1; src[j].moved_from = 0; } size_t a, b; Ring_try_push_batch(&r, src, a, b); }
+void h_Ring_try_pop_batch(void) { Ring r; mk(&r, 2); T_cell dst[NSRC]; for (size_t j = 0; j < NSRC; ++j) { dst[j].live = 1; dst[j].moved_from = 0; } size_t m; Ring_try_pop_batch(&r, dst, 0, m); }
 void h_Ring_empty(void) { Ring r; mk(&r, 0); Ring_empty(&r); }
 void h_Ring_full(void) { Ring r; mk(&r, 0); Ring_full(&r); }
 void h_Ring_size(void) { Ring r; mk(&r, 0); Ring_size(&r); }
